@@ -152,6 +152,9 @@ func cmdCheck(argv []string) int {
 		// every check that reasons about the store relies on the key-family table
 		extraReps = append(extraReps, keyTableCheck(l, *prop, *prop == "C18" || *prop == "C15" || *prop == "C06")...)
 	}
+	if *only == "" {
+		extraReps = append(extraReps, writerSetCheck(l, *prop)...)
+	}
 	if *prop == "C15" && *only == "" {
 		extraReps = append(extraReps, genesisCoverage(l, *prop)...)
 	}
@@ -224,7 +227,10 @@ func cmdCheck(argv []string) int {
 			// a function under contract that cannot be executed symbolically has lost its proof
 			name := fmt.Sprintf("%s/L1/%s/reach", *prop, specShort(r.Func))
 			reps = append(reps, &OblReport{Name: name, Kind: "reach", Func: r.Func, Status: "failed: " + r.Err})
-			if strings.Contains(r.Err, "contract does not bind") || strings.Contains(r.Err, "engine panic") || strings.Contains(r.Err, "contract expression") {
+			// a contract clause that no longer resolves in the function's current shape (a loop invariant naming a
+			// local that the loop of that ordinal does not have any more) means the proof is lost, like any other
+			// undischarged obligation: it is reported as a failed reach obligation, not as an engine error
+			if strings.Contains(r.Err, "contract does not bind") || strings.Contains(r.Err, "engine panic") || (strings.Contains(r.Err, "contract expression") && !strings.Contains(r.Err, "unknown identifier")) {
 				fmt.Fprintf(os.Stderr, "ENGINE ERROR %s: %s\n", r.Func, r.Err)
 				engineErr = true
 			}
